@@ -222,4 +222,57 @@ func descOf(d PmtDescriptor) *pmtDescriptor {
 //@   ensures result == (descriptor.tag == 5 && len(descriptor.data) >= 4 && descriptor.data[0] == 'D' && descriptor.data[1] == 'O' && descriptor.data[2] == 'V' && descriptor.data[3] == 'I')
 //@   modifies nothing
 
+// ---- elementary stream queries over the descriptor list
+
+func esOf(e PmtElementaryStream) *pmtElementaryStream {
+	p, _ := e.(*pmtElementaryStream)
+	return p
+}
+
+// specDescsOK: every descriptor is one of the library's, and a maximum-bitrate descriptor has its 3 bytes.
+func specDescsOK(ds []PmtDescriptor) bool {
+	return verifForall(0, len(ds), func(k int) bool {
+		return descOf(ds[k]) != nil && (descOf(ds[k]).tag != 14 || len(descOf(ds[k]).data) >= 3)
+	})
+}
+
+func specMBR(d *pmtDescriptor) uint64 {
+	return uint64(d.data[0]%32)*65536 + uint64(d.data[1])*256 + uint64(d.data[2])
+}
+
+//@ func (es *pmtElementaryStream) MaxBitRate() uint64
+//@   props C20
+//@   requires es != nil && specDescsOK(es.descriptors)
+//@   ensures len(es.descriptors) >= 1 && descOf(es.descriptors[0]).tag == 14 ==> result == specMBR(descOf(es.descriptors[0]))*50*8
+//@   ensures len(es.descriptors) >= 2 && descOf(es.descriptors[0]).tag != 14 && descOf(es.descriptors[1]).tag == 14 ==> result == specMBR(descOf(es.descriptors[1]))*50*8
+//@   ensures (forall k in 0..len(es.descriptors) :: descOf(es.descriptors[k]).tag != 14) ==> result == 0
+//@   modifies nothing
+//@   loop 1 (rangeindex int)
+//@     invariant -1 <= rangeindex && rangeindex < len(es.descriptors)
+//@     invariant forall j in 0..rangeindex+1 :: descOf(es.descriptors[j]).tag != 14
+//@     decreases len(es.descriptors) - rangeindex
+
+//@ func (es *pmtElementaryStream) Descriptors() []PmtDescriptor
+//@   props C20
+//@   requires es != nil
+//@   ensures len(result) == len(es.descriptors) && (len(result) > 0 ==> &result[0] == &es.descriptors[0])
+//@   modifies nothing
+
+//@ func (es *pmtElementaryStream) ElementaryPid() int
+//@   props C20
+//@   requires es != nil
+//@   ensures result == es.elementaryPid
+//@   modifies nothing
+
+//@ func (es *pmtElementaryStream) IsTTMLSubtitling() bool
+//@   props C20
+//@   requires es != nil && specDescsOK(es.descriptors)
+//@   ensures (forall k in 0..len(es.descriptors) :: !(descOf(es.descriptors[k]).tag == 127 && len(descOf(es.descriptors[k]).data) >= 1 && descOf(es.descriptors[k]).data[0] == 32)) ==> !result
+//@   ensures len(es.descriptors) >= 1 && descOf(es.descriptors[0]).tag == 127 && len(descOf(es.descriptors[0]).data) >= 1 && descOf(es.descriptors[0]).data[0] == 32 ==> result
+//@   modifies nothing
+//@   loop 1 (rangeindex int)
+//@     invariant -1 <= rangeindex && rangeindex < len(es.descriptors)
+//@     invariant forall j in 0..rangeindex+1 :: !(descOf(es.descriptors[j]).tag == 127 && len(descOf(es.descriptors[j]).data) >= 1 && descOf(es.descriptors[j]).data[0] == 32)
+//@     decreases len(es.descriptors) - rangeindex
+
 var _ = gots.ErrNoPayload
